@@ -374,6 +374,28 @@ def run_property(pid, tier, seed):
                 else:
                     viol.append((fl, tp, foundin))
                     failed_tags.append(fl.tag)
+        # ---- bounded stand-ins for functions outside the verifier's reach (labelled bounded, never counted as proved)
+        standins = []
+        for mode in props.get(pid, {}).get("bounded", []):
+            from . import replay as R
+            if rbin is None:
+                rbin, err = R.build_replay()
+                if rbin is None:
+                    raise Undecided("replay crate does not build against this tree (needed for the bounded stand-in): " + err[-300:])
+            budget = 20000 if tier == "thorough" else 3000
+            foundin, checked = R.run_mode(rbin, mode, budget, seed)
+            standins.append({"mode": mode, "label": "bounded - not counted as proved", "bound": R.BOUNDS.get(mode, ""), "budget": budget,
+                             "seed": seed, "cases_checked": checked, "failing_input": foundin})
+            if foundin is not None:
+                fl = Failure("bounded-standin", f"bounded stand-in `{mode}` found an input on which the real code disagrees with the reference",
+                             "", f"{pid}::bounded#{mode}", 0, json.dumps(foundin))
+                hit = match_known(kf, pid, pclosure, fl, b, foundin)
+                if hit:
+                    log(f"KNOWN-FINDING: property={pid} {hit['what']}")
+                else:
+                    viol.append((fl, [pid], foundin))
+                    failed_tags.append(fl.tag)
+        info["bounded_standins"] = standins
         replay_paths = []
         if viol:
             os.makedirs(os.path.join(VERIF, "replays"), exist_ok=True)
@@ -562,6 +584,7 @@ def write_evidence(pid, tier, seed, b, res, pclosure, ob_tags, failed_tags, used
             "vacuity_guard": vac,
             "degraded_functions": dict(b.degraded),
             "triage_notes": (info or {}).get("notes", []),
+            "bounded_standins": (info or {}).get("bounded_standins", []),
             "samples": samples,
             "explanation": "each obligation is a requires/ensures/decreases/invariant clause (or the implicit panic / overflow / "
                            "precondition obligations) Verus generated for a function whose body is copied token for token from /repo; "
